@@ -88,8 +88,8 @@ def r06_1(ck, F):
     heads = {h for _, h in b.back_edges()}
     in_loop = [u for u in ups if any(u in b.loop_blocks(h) for h in heads if not (b.loop_blocks(h) & set()) )]
     edges = _closed_edges(b, {"None"}, lambda x: x[0] == "call" and x[1] == "std::sync::Weak::upgrade")
-    errs = {bb for bb, i, rv in b.aggregates("chmux::sender::SendError", "ChMux")}
-    ok = bool(in_loop) and bool(edges) and bool(b.reach(edges) & errs) and not (b.reach(edges) & set(b.yields()))
+    ok = bool(in_loop) and bool(edges) and yields_error(b, edges, "chmux::sender::SendError", "ChMux") and \
+        not (b.reach(edges) & set(b.yields()))
     # after each wake-up the upgrade is evaluated again
     for a in b.awaits():
         if a.get("ready_bb") is not None:
